@@ -307,8 +307,36 @@ Proof.
     rewrite tmem_app in Hg. apply orb_false_iff in Hg as [_ Hg]. apply tmem_In in Hy. congruence.
 Qed.
 
+(* the globals of the main-loop body: fresh, pairwise distinct *)
+Lemma trl_fresh ret : forall ps k D g, In g (snd (trl ret k D ps)) -> tmem (g_name g) D = false.
+Proof.
+  induction ps as [|p r IH]; intros k D g Hg; [destruct Hg|].
+  assert (K : forall k', In g (snd (trl ret k' D r)) -> tmem (g_name g) D = false) by (intro k'; apply IH).
+  destruct p; cbn [trl snd] in Hg; try (eapply K; exact Hg).
+  destruct (tmem x D) eqn:Ex; cbn [snd] in Hg; [eapply K; exact Hg|].
+  destruct Hg as [<-|Hg]; [exact Ex|]. apply IH in Hg. rewrite tmem_app in Hg. apply orb_false_iff in Hg as [Hg _]. exact Hg.
+Qed.
+
+Lemma trl_nodup ret : forall ps k D, NoDup (map g_name (snd (trl ret k D ps))).
+Proof.
+  induction ps as [|p r IH]; intros k D; [constructor|].
+  destruct p; cbn [trl snd]; try apply IH.
+  destruct (tmem x D) eqn:Ex; cbn [snd]; [apply IH|].
+  cbn [map g_name]. constructor; [|apply IH].
+  intro HI. apply in_map_iff in HI as (g & <- & Hg). apply trl_fresh in Hg.
+  rewrite tmem_app in Hg. apply orb_false_iff in Hg as [_ Hg]. cbn in Hg. rewrite text_eqb_refl in Hg. discriminate.
+Qed.
+
+Lemma trl_default ret : forall ps k D g, In g (snd (trl ret k D ps)) -> g_init g = XDefault (g_ty g).
+Proof.
+  induction ps as [|p r IH]; intros k D g Hg; [destruct Hg|].
+  destruct p; cbn [trl snd] in Hg; try (eapply IH; exact Hg).
+  destruct (tmem x D); cbn [snd] in Hg; [eapply IH; exact Hg|].
+  destruct Hg as [<-|Hg]; [reflexivity|eapply IH; exact Hg].
+Qed.
+
 Lemma trm_fresh ret k top lm D ps g : In g (snd (trm ret k top lm D ps)) -> tmem (g_name g) (map fst D) = false.
-Proof. destruct top, lm; cbn; try (intros []); apply trt_fresh. Qed.
+Proof. destruct top, lm; cbn; try (intros []); [apply trl_fresh|apply trt_fresh]. Qed.
 
 Lemma trm_nil ret k top lm D : trm ret k top lm D [] = ([], []).
 Proof. destruct top, lm; reflexivity. Qed.
@@ -336,8 +364,8 @@ Qed.
 
 Lemma trm_cons_newl ret k D x e rest : tlookup x D = None ->
   trm ret k true true D (PAssign x e :: rest) =
-  (NDecl x (a_ty e) (XE (a_id e)) false :: fst (trm ret k true true (D ++ [(x, a_ty e)]) rest),
-   snd (trm ret k true true (D ++ [(x, a_ty e)]) rest)).
+  (NAssign x (XE (a_id e)) :: fst (trm ret k true true (D ++ [(x, a_ty e)]) rest),
+   {| g_name := x; g_ty := a_ty e; g_init := XDefault (a_ty e) |} :: snd (trm ret k true true (D ++ [(x, a_ty e)]) rest)).
 Proof.
   intro H. unfold trm. cbn [trl fst snd].
   match goal with |- context [tmem x ?l] => replace (tmem x l) with false by (symmetry; eapply tlookup_dom_false; eauto) end.
@@ -374,8 +402,6 @@ Proof.
   cbn [forallb]. rewrite Hx. cbn [negb andb]. rewrite andb_false_r. reflexivity.
 Qed.
 
-Lemma trm_local_snd ret k D ps : snd (trm ret k true true D ps) = [].
-Proof. reflexivity. Qed.
 
 Lemma closed_const_fv e : closed_const e = true -> a_fv e = [].
 Proof. unfold closed_const. destruct (a_const e); [|discriminate]. destruct (a_fv e); [reflexivity|discriminate]. Qed.
@@ -660,6 +686,81 @@ Proof.
       destruct (tuple_decl_ok_inv _ _ _ _ Hk) as (Hlen & _).
       apply in_app_or in Hg as [Hg|Hg].
       * apply tup_globals_names in Hg. eapply tuple_decl_ok_nt; eauto.
+      * eapply IH; [exact HG|]. rewrite map_app, map_fst_combine by (rewrite map_length; exact Hlen). exact Hg.
+    + destruct (tuple_asg_ok D L xs es) eqn:Hq.
+      { inversion HS; subst D1. eapply SAME; [reflexivity|exact Hg]. }
+      cbn [andb] in HS. destruct (tuple_decl_ok D L xs es) eqn:Hk; [|discriminate]. exfalso.
+      destruct (tuple_decl_ok_inv _ _ _ _ Hk) as (Hlen & _ & Hnew & Hnd).
+      apply Nat.eqb_eq in Hlen. rewrite Hlen, Hnd in Hc. cbn in Hc. rewrite andb_true_r in Hc.
+      assert (X : forallb (fun x => negb (tmem x (map fst D))) xs = true).
+      { apply forallb_forall. intros x Hx. apply negb_true_iff. apply (Hnew x Hx). }
+      congruence.
+Qed.
+
+(* ... and so have the globals the guarded main-loop body declares *)
+Lemma trl_names_nt ret : forall ps gf k D L D' g,
+  no_top_tuple D ps = true ->
+  g_block gf true D L ps = Some D' -> In g (snd (trl ret k (map fst D) ps)) -> is_tmp (g_name g) = false.
+Proof.
+  induction ps as [|p r IH]; intros gf k D L D' g HT HG Hg; [destruct Hg|].
+  apply g_block_cons_inv in HG as (gf' & D1 & -> & HS & HG).
+  pose proof (no_top_tuple_tail D D1 p r (g_step_ext _ _ _ _ _ _ HS) HT) as HT1.
+  destruct (g_step_cases _ _ _ _ _ _ HS) as [E|[(x0 & e0 & E & _ & Hl & E1)|(xs0 & es0 & E & _ & _ & Hk & _)]].
+  - subst D1. destruct p; cbn [trl snd] in Hg; try (eapply IH; [exact HT1|exact HG|exact Hg]).
+    destruct (tmem x (map fst D)) eqn:Ex; cbn [snd] in Hg; [eapply IH; [exact HT1|exact HG|exact Hg]|].
+    exfalso. cbn [g_step] in HS. destruct (negb (fv_ok D L e) || tmem x L); [discriminate|].
+    destruct (tlookup x D) as [t|] eqn:Hl.
+    + erewrite tlookup_dom_true in Ex by eauto. discriminate.
+    + destruct (true && negb (is_tmp x)); [|discriminate]. inversion HS as [HD].
+      assert (Hlen : length (D ++ [(x, a_ty e)]) = length D) by (rewrite HD; reflexivity).
+      rewrite app_length in Hlen. cbn in Hlen. clear - Hlen. induction (length D); cbn in Hlen; [discriminate|]. apply IHn. injection Hlen as Hlen. exact Hlen.
+  - subst p D1. cbn [trl snd] in Hg.
+    replace (tmem x0 (map fst D)) with false in Hg by (symmetry; eapply tlookup_dom_false; eauto).
+    cbn [snd] in Hg. destruct Hg as [<-|Hg].
+    + cbn [g_name]. cbn [g_step] in HS. destruct (negb (fv_ok D L e0) || tmem x0 L); [discriminate|]. rewrite Hl in HS.
+      destruct (is_tmp x0); [discriminate|reflexivity].
+    + eapply IH; [exact HT1|exact HG|]. rewrite map_app. exact Hg.
+  - subst p. exfalso. eapply no_top_tuple_decl; eauto.
+Qed.
+
+(* the globals a guarded top-level statement list declares are names of its final declaration environment *)
+Lemma trt_names_in ret : forall ps gf k D L D' g,
+  g_block gf true D L ps = Some D' -> In g (snd (trt ret k (map fst D) ps)) -> tmem (g_name g) (map fst D') = true.
+Proof.
+  induction ps as [|p r IH]; intros gf k D L D' g HG Hg; [destruct Hg|].
+  apply g_block_cons_inv in HG as (gf' & D1 & -> & HS & HG).
+  pose proof (g_block_ext _ _ _ _ _ _ HG) as HX.
+  assert (SAME : D1 = D -> forall k', In g (snd (trt ret k' (map fst D) r)) -> tmem (g_name g) (map fst D') = true).
+  { intros -> k' H. eapply IH; eauto. }
+  destruct p; cbn [trt snd] in Hg.
+  all: try (destruct (g_step_cases _ _ _ _ _ _ HS) as [E|[(x0 & e0 & E & _)|(xs0 & es0 & E & _)]]; try discriminate E;
+            eapply SAME; [exact E|exact Hg]).
+  - (* PAssign *)
+    cbn [g_step] in HS. destruct (negb (fv_ok D L e) || tmem x L); [discriminate|].
+    destruct (tlookup x D) as [t|] eqn:Hl.
+    + match type of Hg with context [tmem x ?l] => replace (tmem x l) with true in Hg by (symmetry; eapply tlookup_dom_true; eauto) end. destruct (ty_eqb t (a_ty e)); [|discriminate]. inversion HS; subst D1.
+      eapply SAME; [reflexivity|exact Hg].
+    + match type of Hg with context [tmem x ?l] => replace (tmem x l) with false in Hg by (symmetry; eapply tlookup_dom_false; eauto) end.
+      destruct (is_tmp x) eqn:Hxt; [discriminate HS|].
+      cbn [andb negb] in HS. inversion HS; subst D1.
+      assert (Hx : tmem x (map fst D') = true).
+      { eapply ext_dom; [exact HX|]. rewrite map_app, tmem_app. cbn. rewrite text_eqb_refl. apply orb_true_r. }
+      destruct (closed_const e); cbn [snd] in Hg; (destruct Hg as [<-|Hg]; [exact Hx|]);
+        (eapply IH; [exact HG|]; rewrite map_app; exact Hg).
+  - (* PTuple *)
+    cbn [g_step] in HS.
+    match type of Hg with context [if ?c then _ else _] => destruct c eqn:Hc end; cbn [snd] in Hg.
+    + destruct (tuple_asg_ok D L xs es) eqn:Hq.
+      { exfalso. apply tuple_asg_ok_inv in Hq as (Hne & _ & Hty). apply tuple_asg_tys_inv in Hty as [_ Hd].
+        destruct xs as [|x xr]; [congruence|]. destruct (Hd x (or_introl eq_refl)) as [Hx _].
+        apply andb_true_iff in Hc as [Hc _]. apply andb_true_iff in Hc as [_ Hc]. cbn [forallb] in Hc.
+        rewrite Hx in Hc. discriminate. }
+      cbn [andb] in HS. destruct (tuple_decl_ok D L xs es) eqn:Hk; [|discriminate]. inversion HS; subst D1.
+      destruct (tuple_decl_ok_inv _ _ _ _ Hk) as (Hlen & _).
+      apply in_app_or in Hg as [Hg|Hg].
+      * apply tup_globals_names in Hg. eapply ext_dom; [exact HX|].
+        rewrite map_app, tmem_app, map_fst_combine by (rewrite map_length; exact Hlen).
+        apply tmem_In in Hg. rewrite Hg. apply orb_true_r.
       * eapply IH; [exact HG|]. rewrite map_app, map_fst_combine by (rewrite map_length; exact Hlen). exact Hg.
     + destruct (tuple_asg_ok D L xs es) eqn:Hq.
       { inversion HS; subst D1. eapply SAME; [reflexivity|exact Hg]. }
